@@ -10,6 +10,7 @@ NOTES = {
     "C07j": "not detected: needs x-goag-go-type custom item types, which are outside the driven dialect (DESIGN §12)",
     "C06n": "not detected: needs a set Nullable holding a nil slice; the value domain of the JSON checks keeps set Nullables non-nil (DESIGN §11: nil encodes as null = the unset state)",
     "C09n": "not detected: needs a header parameter named Content-Type next to a JSON body; on the unchanged tree that parameter already arrives set when the caller left it unset (the client's own Content-Type), so the shape is outside the driven dialect",
+    "C18o": "not detected: the $ref'd JSON request body component is a codec-less position on the unchanged tree (recorded finding C18-component-json-request-body): $ref and inline copy already differ there, a further difference in the same place is not told apart",
     "C01l": "not detected: needs a config file with maybe.type, custom wrapper types are outside the driven dialect (DESIGN §12)",
 }
 HOW = ("tools/confirm_seeded.sh: scratch worktree of /repo HEAD, demo/run.sh on the clean worktree, "
